@@ -67,7 +67,8 @@ func c03R10(p *core.Prog, r *core.Report) {
 		}
 		unit := core.Helpers(fn, 2)
 		// the reads, in the function or in helpers it calls (a helper counts at its call site)
-		var reads []*ssa.Call
+		var reads, boolReads []*ssa.Call
+		helperReads := map[*ssa.Call]*ssa.Call{}
 		// a read of the content: the path names the blob directory
 		blobRead := func(c ssa.CallInstruction) bool {
 			if !isRead(core.Callee(c)) || len(c.Common().Args) == 0 {
@@ -92,15 +93,36 @@ func c03R10(p *core.Prog, r *core.Report) {
 			if g := core.CalleeFn(c); g != nil && g != fn && unit[g] {
 				res := g.Signature.Results()
 				has := false
-				core.Calls(g, func(gc ssa.CallInstruction) { has = has || blobRead(gc) })
+				core.Calls(g, func(gc ssa.CallInstruction) {
+					has = has || blobRead(gc)
+					// a helper that is handed the file's path and looks at it
+					if gcall, isCall := gc.(*ssa.Call); isCall && isRead(core.Callee(gc)) && len(gc.Common().Args) > 0 && !has {
+						for _, o := range core.Origins(gc.Common().Args[0], core.SliceOpts{}) {
+							if o.Kind == core.OParam && o.Param.Parent() == g {
+								helperReads[call] = gcall
+								has = true
+							}
+						}
+					}
+				})
 				if res.Len() > 0 && isErrType(res.At(res.Len()-1).Type()) && has {
 					reads = append(reads, call)
+				} else if has && helperReads[call] != nil && res.Len() > 0 && types.Identical(res.At(res.Len()-1).Type(), types.Typ[types.Bool]) {
+					boolReads = append(boolReads, helperReads[call])
 				}
 			}
 		})
 		stopEdge := func(from, to *ssa.BasicBlock) bool {
 			for _, rd := range reads {
 				for _, e := range nilEdgesOf(fn, rd) {
+					if e[0] == from && e[1] == to {
+						return true
+					}
+				}
+			}
+			// a helper that answers "is it there" with a bool: the edges on which it said yes
+			for _, w := range boolReads {
+				for _, e := range successEdgesIn(fn, w) {
 					if e[0] == from && e[1] == to {
 						return true
 					}
@@ -119,7 +141,7 @@ func c03R10(p *core.Prog, r *core.Report) {
 				bad = p.Pos(ret.Pos())
 			}
 		}
-		r.Check(bad == "" && len(reads) > 0, rule, p.FuncName(fn), "presence decided by the file", p.Pos(fn.Pos()),
+		r.Check(bad == "" && len(reads)+len(boolReads) > 0, rule, p.FuncName(fn), "presence decided by the file", p.Pos(fn.Pos()),
 			"the return at "+bad+" can report the content as present without any look at the file: an entry that index.json lists but whose blob is missing is answered as present, and a copy onto such a target reports success without writing the manifest")
 	}
 }
